@@ -429,6 +429,8 @@ let () =
     let wsl = rlist (fun t -> let rain = rf t in let tmax = rf t in let tmin = rf t in let et0 = rf t in let gw = rf t in
                                { w_rain = rain; w_tmax = tmax; w_tmin = tmin; w_et0 = et0; w_gw = gw }) t in
     let s = r_state t in
+    (* optional call partition: "K n k1 .. kn" = run_model(num_steps = k1), then k2, ... (run_steps_c); default: till termination *)
+    let parts = (match t.rest with [] -> None | _ -> (match next t with "K" -> Some (rlist ri t) | x -> raise (Bad ("mode " ^ x)))) in
     if t.rest <> [] then raise (Bad "trailing tokens");
     let c = { n_steps = nsteps; plant = pl; harv = hv; off_season = par.p_sim_off } in
     let m0 = { st0 = { phys = s; tsc = tsc; season = season; dap = dap; mature = mature; hflag = hflag; fin = false };
@@ -443,7 +445,17 @@ let () =
       let o = row.r_sto in
       wz o.st_tsc; wb o.st_gs; wz o.st_dap; wfl o.st_th in
     let w_sum r = wz r.s_season; wz r.s_date; wz r.s_step; wf r.s_out.o_Dry; wf r.s_out.o_Fresh; wf r.s_out.o_Pot; wf r.s_out.o_IrrTot in
-    match run_till_c fnum tr par crops c wsl (nat_of_int (int_of_z nsteps + 2)) m0 with
+    let result = (match parts with
+      | None -> run_till_c fnum tr par crops c wsl (nat_of_int (int_of_z nsteps + 2)) m0
+      | Some ks ->
+        let rec go m = function
+          | [] -> Some (GOk m)
+          | k :: rest -> if m.st0.fin then Some (GOk m)      (* a call on a finished model is not part of the property *)
+                         else (match run_steps_c fnum tr par crops c wsl (nat_of_int k) m with
+                               | GOk m' -> go m' rest
+                               | r -> Some r) in
+        go m0 ks) in
+    match result with
     | None -> ws "U"
     | Some (GRaise IndexError) -> ws "R IndexError"
     | Some (GRaise KeyError) -> ws "R KeyError"
